@@ -152,9 +152,10 @@ def shared_hints(ops, impl_out):
 
 
 class Rx:
-    __slots__ = ("op", "tag", "sids", "qos", "id", "acked", "comp", "conn")
-    def __init__(self, op, tag, sids, qos, rid, conn):
+    __slots__ = ("op", "tag", "sids", "qos", "id", "acked", "comp", "conn", "key")
+    def __init__(self, op, tag, sids, qos, rid, conn, key=""):
         self.op, self.tag, self.sids, self.qos, self.id, self.acked, self.comp, self.conn = op, tag, sids, qos, rid, False, False, conn
+        self.key = key
     def __repr__(self):
         return f"<{self.tag} q{self.qos} id={self.id} {'acked' if self.acked else ''}{' comp' if self.comp else ''}>"
 
@@ -173,7 +174,7 @@ class Sessions:
               (kind == "puback" and e.qos == 1 and not e.acked) or
               (kind == "pubrec" and e.qos == 2 and not e.acked) or
               (kind == "pubcomp" and e.qos == 2 and e.acked and not e.comp)]
-        es.sort(key=lambda e: (e.op, e.tag, e.sids))
+        es.sort(key=lambda e: (e.op, e.tag, e.sids, e.key))
         return es
 
     def unfinished(self, cid):
@@ -219,5 +220,5 @@ class Sessions:
                     if known and pf["d"] == 0:
                         self.collisions.append((cid, pf))
                     if not known:
-                        l.append(Rx(self.opi, pf["tag"], pf["sid"], pf["q"], pf["id"], name))
+                        l.append(Rx(self.opi, pf["tag"], pf["sid"], pf["q"], pf["id"], name, re.sub(r",id=\d+", ",id=?", x)))
         return f, pre, conns, acked
